@@ -33,5 +33,8 @@ for f in theirs["findings"]:
         ours["findings"][keys[k]] = f      # the branch is authoritative for its own property
 json.dump(ours, open("known_findings.json", "w"), indent=1)
 subprocess.run(["git", "checkout", "--ours", "MANIFEST.json"], check=False)
+for ev in sh("git", "diff", "--name-only", "--diff-filter=U").split():
+    if ev.startswith("evidence/"):
+        subprocess.run(["git", "checkout", "--ours", ev], check=False)   # evidence is rewritten by the next run anyway
 subprocess.run([sys.executable, "tools/gen_manifest.py"], check=True)
 print(sh("git", "status", "--short"))
